@@ -337,8 +337,13 @@ class C06(Check):
             B.ask("integral %d %s %s" % (tid, F(RTOL), F(ATOL)), cb_int)
             # the same identity with the leak explicit: reported demand = (sum inlet flows - sum outlet flows) - leak_demand and
             # dV = (link net inflow - leak_demand) * dt  (qtol: the solver's flow-balance tolerance at the tank)
-            inl = [ln for ln in wn.get_links_for_node(tn, "ALL") if wn.get_link(ln).end_node_name == tn]
-            outl = [ln for ln in wn.get_links_for_node(tn, "ALL") if wn.get_link(ln).start_node_name == tn]
+            # the links at the tank are read off the LINKS' own end nodes, not off the tank's registry entry (which an edit of the
+            # model may have left stale)
+            inl = [ln for ln in tr.links if wn.get_link(ln).end_node_name == tn]
+            outl = [ln for ln in tr.links if wn.get_link(ln).start_node_name == tn]
+            if sorted(inl + outl) != sorted(wn.get_links_for_node(tn, "ALL")):
+                broken.append(Broken("correspondence", "get_links_for_node vs the links' end nodes",
+                                     "%s tank %s: registry lists %s, links ending/starting at it %s" % (label, tn, wn.get_links_for_node(tn, "ALL"), sorted(inl + outl))))
             rl = [(r["t"], r["tanks"][tn][0], r["tanks"][tn][1], r["leak"][tn][0],
                    sum(r["flow"][ln] for ln in inl) - sum(r["flow"][ln] for ln in outl)) for r in tr.rows]
             has_leak = bool(tspec.get("leak"))
